@@ -24,7 +24,7 @@ Section Sim.
   Definition sim_addl (a : addl elem) (oS : option json) : Prop :=
     match oS with
     | None => a = AddBool true
-    | Some (JBool b) => a = AddBool b
+    | Some (JBool b) => a = AddBool b \/ (b = false /\ a = AddElem ENothing)
     | Some Sa => exists e, a = AddElem e /\ sim e Sa
     end.
 
@@ -51,7 +51,7 @@ Section Sim.
   Proof.
     intros H Hx. unfold sim_addl in H. destruct oS as [Sa|]; [|subst a; reflexivity].
     destruct Sa; try (destruct H as (e & -> & He); exact (He x Hx)).
-    subst a. destruct b; reflexivity.
+    destruct H as [->|[-> ->]]; [destruct b; reflexivity|reflexivity].
   Qed.
 
   Lemma addl_falsy a oS x : sim_addl a oS -> jwf x -> addl_truthy a = false ->
@@ -60,7 +60,7 @@ Section Sim.
     intros H Hx Ht. unfold sim_addl in H. destruct oS as [Sa|]; [|subst a; discriminate].
     destruct Sa; try (destruct H as (e & -> & He); simpl in Ht; apply negb_false_iff in Ht;
                       destruct e; try discriminate; exact (He x Hx)).
-    subst a. simpl in Ht. subst b. reflexivity.
+    destruct H as [->|[-> ->]]; [simpl in Ht; subst b; reflexivity|reflexivity].
   Qed.
 
   (* ---- items ---- *)
